@@ -23,7 +23,7 @@ type C08Source struct {
 }
 
 type C08Action struct {
-	Kind int `json:"kind"` // 0 Compile(source S) on the shared config, 1 CopyConfig + mutate the copy, 2 NewConfig(ExtendConf) + mutate the copy, 3 Compile on a copy, 4 mutate the original's copy-source relation the other way (mutate original after copying; the copy must not change)
+	Kind int `json:"kind"` // (5: a different config compiles source S, then the shared one again) 0 Compile(source S) on the shared config, 1 CopyConfig + mutate the copy, 2 NewConfig(ExtendConf) + mutate the copy, 3 Compile on a copy, 4 mutate the original's copy-source relation the other way (mutate original after copying; the copy must not change)
 	S    int `json:"s"`
 	Mut  int `json:"mut"` // which container the mutation touches
 }
@@ -80,7 +80,7 @@ func genC08(t *rapid.T) C08Case {
 	c.Sources[len(c.Sources)-1].Prefix = ""
 	na := rapid.IntRange(2, 12).Draw(t, "nactions")
 	for i := 0; i < na; i++ {
-		c.Actions = append(c.Actions, C08Action{Kind: pickW(t, "action", 6, 2, 2, 1, 1), S: rapid.IntRange(0, ns-1).Draw(t, "src"), Mut: rapid.IntRange(0, 6).Draw(t, "mut")})
+		c.Actions = append(c.Actions, C08Action{Kind: pickW(t, "action", 6, 2, 2, 1, 1, 2), S: rapid.IntRange(0, ns-1).Draw(t, "src"), Mut: rapid.IntRange(0, 6).Draw(t, "mut")})
 	}
 	ng := rapid.IntRange(2, 8).Draw(t, "goroutines")
 	for g := 0; g < ng; g++ {
@@ -227,6 +227,11 @@ func checkC08(c C08Case, r *Rec) *Violation {
 		how = HowMapSparse
 	}
 	cc, _ := NewConfig(u, &Log{}, Build{Mask: c.Mask, How: how, Costs: c.Costs, Pure: true})
+	if c.Mask%2 == 0 { // the caller's stateless slice may have spare capacity (built by appending)
+		withCap := make([]string, len(cc.StatelessOperators), len(cc.StatelessOperators)+5)
+		copy(withCap, cc.StatelessOperators)
+		cc.StatelessOperators = withCap
+	}
 	srcs := make([]string, len(c.Sources))
 	for i, s := range c.Sources {
 		srcs[i] = s.Prefix + m.Render(s.Tree)
@@ -280,6 +285,25 @@ func checkC08(c C08Case, r *Rec) *Violation {
 			if d := base.diff(snapshotConfig(cc)); d != "" {
 				return Violf("C08: mutating a copy (kind %d, mutation %d) changed the source config: %s\n%s", a.Kind, a.Mut%7, d, describe())
 			}
+			// two sibling copies that each append to their own stateless list must not see each other
+			mk := func() *eval.Config {
+				if a.Kind == 1 {
+					return eval.CopyConfig(cc)
+				}
+				return eval.NewConfig(eval.ExtendConf(cc))
+			}
+			sib1, sib2 := mk(), mk()
+			sib1.StatelessOperators = append(sib1.StatelessOperators, "zz_one")
+			sib2.StatelessOperators = append(sib2.StatelessOperators, "zz_two")
+			sib1.StatelessOperators = append(sib1.StatelessOperators, "zz_three")
+			want1 := append(append([]string{}, base.stateless...), "zz_one", "zz_three")
+			want2 := append(append([]string{}, base.stateless...), "zz_two")
+			if !reflect.DeepEqual(sib1.StatelessOperators, want1) || !reflect.DeepEqual(sib2.StatelessOperators, want2) {
+				return Violf("C08: two copies (kind %d) of one config share their stateless list: after appending to each, they hold %v and %v, expected %v and %v\n%s", a.Kind, sib1.StatelessOperators, sib2.StatelessOperators, want1, want2, describe())
+			}
+			if d := base.diff(snapshotConfig(cc)); d != "" {
+				return Violf("C08: appending to copies changed the source config: %s\n%s", d, describe())
+			}
 			r.Class("copy-mutated")
 		case 3:
 			cp := eval.CopyConfig(cc)
@@ -297,6 +321,23 @@ func checkC08(c C08Case, r *Rec) *Violation {
 			} else {
 				first[a.S] = res
 			}
+		case 5:
+			// another config with the same names but other contents (more operators declared
+			// stateless, an operator replaced) compiles the source; the shared config must
+			// afterwards still give what it gave before: Compile depends on the config it is
+			// given, not on which configs were compiled earlier in the process
+			other := eval.CopyConfig(cc)
+			other.StatelessOperators = append(other.StatelessOperators, "c_id", "c_sum", "c_not", "c_cat")
+			if a.Mut%2 == 0 {
+				other.OperatorMap["c_id"] = func(*eval.Ctx, []eval.Value) (eval.Value, error) { return int64(4242), nil }
+			}
+			if _, v := c08Compile(other, u, srcs[a.S]); v != nil {
+				return v
+			}
+			if v := compileShared(a.S, fmt.Sprintf("action %d, after a different config compiled the same source", k)); v != nil {
+				return v
+			}
+			r.Class("other-config-compiled-in-between")
 		default:
 			// copy, then change the ORIGINAL's clone: the earlier copy must keep the old contents
 			orig := eval.CopyConfig(cc)
